@@ -237,3 +237,39 @@ func VHPartitionLong() {
 		vCover("partition long n >= 64")
 	}
 }
+
+// VHCallbackDepth: the *Func variants must call back from a stack depth that does not grow with
+// the number of pieces. Go has a bounded goroutine stack and no tail calls, so an
+// implementation whose depth grows linearly fails for slices of some millions of pieces even
+// though it is right on every short one; a constant or logarithmic depth is fine. 64 pieces:
+// the callbacks' depths may differ by at most 16.
+func VHCallbackDepth() {
+	n := 64
+	in := make([]int, n+1)
+	for i := range in {
+		in[i] = vInt("e")
+	}
+	lo, hi, calls := 0, 0, 0
+	note := func() {
+		d := vDepth()
+		if calls == 0 || d < lo {
+			lo = d
+		}
+		if calls == 0 || d > hi {
+			hi = d
+		}
+		calls++
+	}
+	which := vChoose("which", 3)
+	switch which {
+	case 0:
+		ChunkFunc(in[:n], 1, func([]int) { note() })
+	case 1:
+		WindowedFunc(in[:n], 1, func([]int) { note() })
+	case 2:
+		PairsFunc(in, func(a, b int) { note() })
+	}
+	vAssert(calls == n, "*Func (64 pieces): one callback per piece")
+	vAssert(hi-lo <= 16, "*Func: the call depth at the callback does not grow with the number of pieces (no stack exhaustion on long slices)")
+	vCover("callback depth measured")
+}
